@@ -1137,4 +1137,8 @@ SEEDS = [
         let end = self.index(max);""", new="""    pub(super) fn intersect_mask(&self, min: i64, max: i64) -> u64 {
         let start = self.index(max);
         let end = self.index(min);""", note='the visit mask is built from (max, min)'),
+
+    # ---- UNCHECKED unsafe-surface ----
+    dict(id='US1-pool-grows-by-set-len', props=['C10', 'C11'], file='src/map/pool.rs', old="""        self.buffer.resize(self.buffer.len() + length, Node::default());""", new="""        unsafe { self.buffer.set_len(self.buffer.len() + length); }""", note='the new slots are uninitialised memory: the first clear or drop reads garbage links'),
+    dict(id='US2-removal-moves-payload-by-raw-read', props=['C04', 'C10'], file='src/map/tree.rs', old="""            let entity = successor.entity.clone();""", new="""            let entity = unsafe { std::ptr::read(&successor.entity) };""", note='the value of the in-order neighbour is duplicated bitwise: dropped twice when it owns something'),
 ]
